@@ -253,9 +253,10 @@ class Sem:
     def x_IdentifierExpr(self, e, env):
         if e.name not in env:
             raise Rejected(f"undefined variable {e.name}")
-        if self.depth == 0:
-            self.consumed.add(e.name)
-        else:
+        # a read consumes the TOP-LEVEL name only if it resolves to the top-level binding (a parameter or
+        # local of the same name inside a function is a different variable)
+        top = getattr(self, "_top", None)
+        if top is None or (e.name in top and top[e.name] is env[e.name]):
             self.consumed.add(e.name)
         return env[e.name]
 
